@@ -8,11 +8,11 @@ deregister):
   add      get_data_provider_its_aid ; insert
   upd      exists ; get (type check) ; get ; update          -- `LDMMaintenance.update_provider_data`: get, then update
   updMt    exists ; get ; [get ; update] as ONE block         -- LDMMaintenanceThread: both under data_containers_lock
-  del      exists ; remove_by_id
+  del      exists ; remove_by_id                              -- the answer is the removal's result (fix C16-delete-result)
   qry      get_data_consumer_its_aid ; all/search
   deregP/C get_…_its_aid ; discard
   sub      get_data_consumer_its_aid ; append + last_checked
-  unsub    get_data_consumer_its_aid ; copy ; remove (per match)
+  unsub    get_data_consumer_its_aid ; copy ; remove (per match) -- the answer is what was removed (fix C16-unsubscribe-result)
   gc n     all ; all ; n × remove(row) ; all ; all            -- collect_trash (time-validity pass; rows are "expired" iff odd)
   attend n copy ; n × (get_data_consumer_its_aid ; search ; last_checked section ; callback) ; removes
 Records are codes `2·payload + expiredBit` (`Nat`): the payload is what queries return, the bit stands for the record's
@@ -21,6 +21,7 @@ are `Nat`.  Tie to the source: `blocks_*`/`guarded_ldm` below (`decide` against 
 -/
 import FlexModel.Conc.Sched
 import Generated.Locks
+import Generated.LdmShape
 
 namespace FlexModel.Conc.Ldm
 open FlexModel.Conc
@@ -52,7 +53,7 @@ structure LSt where
   reg : Nat → Nat → Nat := fun _ _ => 0
   regS : Nat → List Nat := fun _ => []               -- thread-local copy of the subscription list
   regT : Nat → List Nat := fun _ => []               -- thread-local `subscriptions_to_remove`
-  err : Nat := 0
+  err : Nat → Nat := fun _ => 0                      -- exception raised inside operation o (1 KeyError, 2 ValueError)
 
 def upd {α : Type} (f : Nat → α) (k : Nat) (v : α) : Nat → α := fun i => if i = k then v else f i
 def upd2 (f : Nat → Nat → Nat) (o k v : Nat) : Nat → Nat → Nat := fun i j => if i = o ∧ j = k then v else f i j
@@ -67,6 +68,10 @@ def removeVal : List (Nat × Nat) → Nat → List (Nat × Nat)
   | [], _ => []
   | p :: r, v => if p.2 == v then r else p :: removeVal r v
 def removeId (db : List (Nat × Nat)) (i : Nat) : List (Nat × Nat) := db.filter (fun p => p.1 != i)
+/-- `del self.database[key]` on a present key: the (first) row with that key goes -/
+def eraseKey : List (Nat × Nat) → Nat → List (Nat × Nat)
+  | [], _ => []
+  | p :: r, k => if p.1 == k then r else p :: eraseKey r k
 /-- `self.database[index] = data`: replace in place, or append a new key -/
 def setRow : List (Nat × Nat) → Nat → Nat → List (Nat × Nat)
   | [], i, v => [(i, v)]
@@ -102,8 +107,20 @@ def dbRemoveId (o i : Nat) (s : LSt) : LSt :=
                                  reg := upd2 s.reg o 3 1 }
   else { s with reg := upd2 s.reg o 3 0 }
 
-def dbRemoveVal (v : Nat) (s : LSt) : LSt :=
-  if s.db.any (fun p => p.2 == v) then { s with db := removeVal s.db v, removed := s.removed + 1 } else s
+/-! `remove(data_object)` is a scan and a `del` in ONE lock section:
+    for key, value in self.database.items():
+        if value == data_object: del self.database[key]; return True
+registers 8 (found) and 9 (key) of the operation hold the scan's result.  `del` RAISES KeyError on an absent key. -/
+def dbScanVal (o v : Nat) (s : LSt) : LSt :=
+  match s.db.find? (fun p => p.2 == v) with
+  | some p => { s with reg := upd2 (upd2 s.reg o 8 1) o 9 p.1 }
+  | none => { s with reg := upd2 s.reg o 8 0 }
+def dbDelKey (o : Nat) (s : LSt) : LSt :=
+  if s.reg o 8 = 1 then
+    if hasKey s.db (s.reg o 9) then { s with db := eraseKey s.db (s.reg o 9), removed := s.removed + 1 }
+    else { s with err := upd s.err o 1 }
+  else s
+def dbRemoveVal (o v : Nat) (s : LSt) : LSt := dbDelKey o (dbScanVal o v s)
 
 /-- `all()` / `search()`: the rows present at this instant (register 6: non-empty) -/
 def dbAll (o : Nat) (s : LSt) : LSt :=
@@ -124,10 +141,17 @@ def consHas (o a : Nat) (s : LSt) : LSt := { s with reg := upd2 s.reg o 1 (if s.
 def subAdd (sid : Nat) (s : LSt) : LSt :=
   { s with subs := s.subs ++ [sid], lastChk := upd s.lastChk sid true, subAdded := s.subAdded + 1 }
 def subsCopy (o : Nat) (s : LSt) : LSt := { s with regS := upd s.regS o s.subs }
-/-- remove_subscription: `if sub in subs: subs.remove(sub)`; `last_checked.pop(sub, None)` -/
-def subRemove (sid : Nat) (s : LSt) : LSt :=
-  if sid ∈ s.subs then { s with subs := s.subs.erase sid, lastChk := upd s.lastChk sid false, subRemoved := s.subRemoved + 1 }
-  else { s with lastChk := upd s.lastChk sid false }
+/-! remove_subscription (one service-lock section): `present = sub in subs` ; `if present: subs.remove(sub)` ;
+`last_checked.pop(sub, None)`.  Register 8 of the operation holds `present` (what the call reports, fix
+C16-unsubscribe-result).  `list.remove` RAISES ValueError on an absent element. -/
+def subTest (o sid : Nat) (s : LSt) : LSt := { s with reg := upd2 s.reg o 8 (if sid ∈ s.subs then 1 else 0) }
+def subDrop (o sid : Nat) (s : LSt) : LSt :=
+  if s.reg o 8 = 1 then
+    if sid ∈ s.subs then { s with subs := s.subs.erase sid, subRemoved := s.subRemoved + 1 }
+    else { s with err := upd s.err o 2 }
+  else s
+def subPop (sid : Nat) (s : LSt) : LSt := { s with lastChk := upd s.lastChk sid false }
+def subRemove (o sid : Nat) (s : LSt) : LSt := subPop sid (subDrop o sid (subTest o sid s))
 def lastChkSection (sid : Nat) (s : LSt) : LSt := { s with lastChk := upd s.lastChk sid true }
 
 /-! ## thread-local steps -/
@@ -139,7 +163,7 @@ def gcPick (o : Nat) (s : LSt) : LSt :=
   match (s.rows o).find? (fun p => expired p.2) with
   | some p => { s with rows := upd s.rows o ((s.rows o).erase p), reg := upd2 (upd2 s.reg o 4 1) o 5 p.2 }
   | none => { s with reg := upd2 s.reg o 4 0 }
-def gcRemove (o : Nat) (s : LSt) : LSt := dbRemoveVal (s.reg o 5) s
+def gcRemove (o : Nat) (s : LSt) : LSt := dbRemoveVal o (s.reg o 5) s
 /-- next subscription of the copy (thread-local) -/
 def subPick (o : Nat) (s : LSt) : LSt :=
   match s.regS o with
@@ -192,7 +216,7 @@ def attendIter (o : Nat) : List TI :=
   tsect lkSvc (.gblk o 4 1 (whenReg o 1 1 (whenReg o 6 1 (fun s => lastChkSection (s.reg o 5) s)))) ++
   [.gblk o 4 1 (whenReg o 1 1 (whenReg o 6 1 (callback o)))]
 def attendRemove (o : Nat) : List TI :=
-  [.loc (removePick o)] ++ tsect lkSvc (.gblk o 4 1 (fun s => subRemove (s.reg o 5) s))
+  [.loc (removePick o)] ++ tsect lkSvc (.gblk o 4 1 (fun s => subRemove o (s.reg o 5) s))
 
 def compileT : Op → List TI
   | .regP a => tsect lkSvc (.blk (provAdd a))
@@ -200,7 +224,7 @@ def compileT : Op → List TI
   | .regC a => tsect lkSvc (.blk (consAdd a))
   | .deregC o a n =>
       tsect lkSvc (.blk (consHas o a)) ++ tsect lkSvc (.gblk o 1 1 (if n = 0 then consDel a else consDelCollect o a)) ++
-      (List.replicate n ([.loc (subPick o)] ++ tsect lkSvc (.gblk o 4 1 (fun s => subRemove (s.reg o 5) s)))).flatten ++
+      (List.replicate n ([.loc (subPick o)] ++ tsect lkSvc (.gblk o 4 1 (fun s => subRemove o (s.reg o 5) s)))).flatten ++
       [.loc (setResp o (fun s => [s.reg o 1]))]
   | .add o a v => tsect lkSvc (.blk (provHas o a)) ++ tsect lkDb (.gblk o 1 1 (dbInsert o v))
   | .upd o i v =>
@@ -210,12 +234,14 @@ def compileT : Op → List TI
       tsect lkDb (.blk (dbExists o i)) ++ [.acq lkMt] ++ tsect lkDb (.gblk o 1 1 (dbGet o i 6)) ++ [.rel lkMt, .acq lkMt] ++
       tsect lkDb (.gblk o 6 1 (dbUpdateIfPresent o i v)) ++ [.rel lkMt] ++
       [.loc (setResp o (fun s => [updCode (s.reg o 1) (s.reg o 6) (s.reg o 3)]))]
-  | .del o i => tsect lkDb (.blk (dbExists o i)) ++ tsect lkDb (.gblk o 1 1 (dbRemoveId o i)) ++ [.loc (setResp o (fun s => [s.reg o 1]))]
+  | .del o i => tsect lkDb (.blk (dbExists o i)) ++ tsect lkDb (.gblk o 1 1 (dbRemoveId o i)) ++
+      [.loc (setResp o (fun s => [if s.reg o 1 = 1 ∧ s.reg o 3 = 1 then 1 else 0]))]
   | .qry o a => tsect lkSvc (.blk (consHas o a)) ++ tsect lkDb (.gblk o 1 1 (dbAll o)) ++ [.loc (setResp o (fun s => [s.reg o 1]))]
   | .sub o a sid => tsect lkSvc (.blk (consHas o a)) ++ tsect lkSvc (.gblk o 1 1 (subAdd sid)) ++ [.loc (setResp o (fun s => [s.reg o 1]))]
   | .unsub o a sid =>
       tsect lkSvc (.blk (consHas o a)) ++ tsect lkSvc (.gblk o 1 1 (subsCopy o)) ++ [.loc (whenReg o 1 1 (unsubFind o sid))] ++
-      tsect lkSvc (.gblk o 3 1 (subRemove sid)) ++ [.loc (setResp o (fun s => [s.reg o 1, s.reg o 3]))]
+      tsect lkSvc (.gblk o 3 1 (subRemove o sid)) ++
+      [.loc (setResp o (fun s => [s.reg o 1, if s.reg o 3 = 1 ∧ s.reg o 8 = 1 then 1 else 0]))]
   | .gc o n => tsect lkDb (.blk (dbAll o)) ++ tsect lkDb (.blk (dbAll o)) ++ (List.replicate n (gcIter o)).flatten ++
       tsect lkDb (.blk (dbAll o)) ++ tsect lkDb (.blk (dbAll o))
   | .attend o n => tsect lkSvc (.blk (subsCopy o)) ++ (List.replicate n (attendIter o)).flatten ++
@@ -272,11 +298,61 @@ theorem calls_unlocked :
     (calls .LDMMaintenance_check_and_delete_time_validity).all (fun c => c.1.isEmpty) = true ∧
     (calls .LDMService_attend_subscriptions).all (fun c => c.1.isEmpty) = true := by decide +kernel
 
-/-- LDMMaintenanceThread wraps every maintenance-level access in `data_containers_lock` -/
+/-- LDMMaintenanceThread wraps every maintenance-level WRITER (add, update, remove by value, remove by id) in
+`data_containers_lock` -/
 theorem mt_wraps :
     (calls .LDMMaintenanceThread_update_provider_data) = [([.LDMMaintenanceThread_data_containers_lock], .LDMMaintenance_update_provider_data)] ∧
-    (calls .LDMMaintenanceThread_del_provider_data) = [([.LDMMaintenanceThread_data_containers_lock], .LDMMaintenance_del_provider_data)] := by
+    (calls .LDMMaintenanceThread_del_provider_data) = [([.LDMMaintenanceThread_data_containers_lock], .LDMMaintenance_del_provider_data)] ∧
+    (calls .LDMMaintenanceThread_del_provider_data_by_id) = [([.LDMMaintenanceThread_data_containers_lock], .LDMMaintenance_del_provider_data_by_id)] ∧
+    (calls .LDMMaintenanceThread_add_provider_data) = [([.LDMMaintenanceThread_data_containers_lock], .LDMMaintenance_add_provider_data)] := by
   decide +kernel
+
+/-- `search` (a filtered / unfiltered request, the attendance pass's query) runs entirely inside ONE database-lock
+section: snapshot (`all`) and filter evaluation are one block (`dbAll`) -/
+theorem search_locked :
+    (calls .DictionaryDataBase_search).all (fun c => c.1 == [.DictionaryDataBase__lock]) = true ∧
+    (calls .LDMMaintenance_search_data_containers) = [([], .DictionaryDataBase_search)] ∧
+    (calls .LDMService_search_data) = [([], .DictionaryDataBase_search)] := by decide +kernel
+
+open Generated.LdmShape in
+/-- the block SEQUENCES `compileT` assumes for the multi-block operations are the synchronisation skeletons of the
+source (harness/gen_ldm_shape.py: lock sections, loops and lock-taking calls in source order):
+`attend` = snapshot section ; per subscription (registry copy ; search ; last-checked section) ; removals -
+the registry is read INSIDE the loop, after the snapshot; `upd` = exists ; get ; (get ; update); `del` = exists ;
+remove_by_id; `deregC` = discard+collect section ; removals; `unsub` = registry copy ; (copy section ; removals);
+`gc` = all ; (all ; per row remove) ; area pass ; all -/
+theorem skeletons :
+    skeleton_LDMService_attend_subscriptions =
+      ["with _lock", "end", "loop", "call get_data_consumer_its_aid", "call search_data", "call order_search_results",
+       "call process_notifications", "endloop", "loop", "call remove_subscription", "endloop"] ∧
+    skeleton_LDMService_process_notifications = ["with _lock", "end"] ∧
+    skeleton_LDMService_remove_subscription = ["with _lock", "end"] ∧
+    skeleton_LDMService_delete_subscription = ["with _lock", "end", "loop", "call remove_subscription", "endloop"] ∧
+    skeleton_LDMService_del_data_consumer_its_aid = ["with _lock", "end", "loop", "call remove_subscription", "endloop"] ∧
+    skeleton_InterfaceLDM3_add_provider_data = ["call get_data_provider_its_aid", "call add_provider_data"] ∧
+    skeleton_InterfaceLDM3_update_provider_data = ["call exists", "call get_provider_data", "call update_provider_data"] ∧
+    skeleton_LDMMaintenance_update_provider_data = ["call get", "call update"] ∧
+    skeleton_LDMMaintenanceThread_update_provider_data = ["with data_containers_lock", "call update_provider_data", "end"] ∧
+    skeleton_InterfaceLDM3_delete_provider_data = ["call exists", "call del_provider_data_by_id"] ∧
+    skeleton_InterfaceLDM3_deregister_data_provider = ["call get_data_provider_its_aid", "call del_data_provider_its_aid"] ∧
+    skeleton_InterfaceLDM4_deregister_data_consumer = ["call get_data_consumer_its_aid", "call del_data_consumer_its_aid"] ∧
+    skeleton_InterfaceLDM4_request_data_objects = ["call get_data_consumer_its_aid", "call query"] ∧
+    skeleton_InterfaceLDM4_unsubscribe_data_consumer = ["call get_data_consumer_its_aid", "call delete_subscription"] ∧
+    skeleton_LDMMaintenance_check_and_delete_time_validity =
+      ["call get_all_data_containers", "loop", "call del_provider_data", "endloop"] ∧
+    skeleton_LDMMaintenance_collect_trash =
+      ["call get_all_data_containers", "call check_and_delete_time_validity", "call check_and_delete_area_of_maintenance",
+       "call get_all_data_containers"] :=
+  ⟨rfl, rfl, rfl, rfl, rfl, rfl, rfl, rfl, rfl, rfl, rfl, rfl, rfl, rfl, rfl, rfl⟩
+
+/-- no method stores into an object fetched from the data base: the in-memory back-end hands out the stored objects
+themselves, so a record (`Nat` code in the model) only ever changes through an `update` block under the database lock,
+and an object already returned to a consumer never changes -/
+theorem no_inplace_mutation : Generated.LdmShape.inplace = [] := rfl
+
+/-- every lock acquisition in the LDM sources is a `with` statement (what harness/gen_locks.py analyses): there is no
+explicit `.acquire()` / `.release()` call -/
+theorem no_explicit_lock_calls : Generated.LdmShape.explicitLockCalls = [] := rfl
 
 /-- rank of the generated lock names (maintenance-thread lock < service lock < database lock; the router's locks are
 ranked as in `RouterConc`) -/
